@@ -60,3 +60,7 @@ Lemma recheck_inside_mutex_ok : recheck_inside_mutex = Some true.
 Proof. vm_compute. reflexivity. Qed.
 Lemma cache_methods_locked_ok : cache_methods_locked = Some true.
 Proof. vm_compute. reflexivity. Qed.
+
+(** C11: versioned keys are split at the last '#' *)
+Lemma vkey_split_last_ok : vkey_split_last = Some true.
+Proof. vm_compute. reflexivity. Qed.
